@@ -1271,6 +1271,14 @@ class CExec:
         tag = "loop%d" % ordinal
         pre_state = st.clone()
         Vpre = self.make_V(pre_state)
+        if spec.define:
+            base_inv = spec.invariant
+            dfn = spec.define
+
+            def inv_with_defs(V, base_inv=base_inv, dfn=dfn):
+                return list(base_inv(V)) + [("def:" + nm, V.v[nm] == ex_) for nm, ex_ in dfn(V).items()]
+            from .core import LoopSpec as _LS
+            spec = _LS(inv_with_defs, unfold=spec.unfold, capture=spec.capture, define=dfn)
         # establish
         V0 = self.make_V(st, pre=Vpre)
         extra0 = spec.unfold(V0) if spec.unfold else []
@@ -1299,6 +1307,13 @@ class CExec:
         Vh = self.make_V(h, pre=Vpre)
         inv_h = [e for _, e in labelled(spec.invariant(Vh), "inv")]
         h.pc.extend(inv_h)
+        if spec.define:
+            # the invariant states name == expr: use the expression from here on (sound substitution of equals)
+            defs = spec.define(Vh)
+            for did, val in list(h.vars.items()):
+                nm = h.names.get(did)
+                if nm in defs and did in self.fn_stack[-1][1]:
+                    h.vars[did] = defs[nm]
         if spec.unfold:
             h.pc.extend(spec.unfold(Vh))
         results = []
